@@ -8,9 +8,10 @@
    Assumed of the schema (premises of every theorem, named so that they can be audited):
      leaf_input / leaf_literal  a scalar's coerce_input / parse_literal returns a value `leaf` accepts (or "invalid");
      leaf_not_none              ... never None;
-     input_fields_unique        input object field names are unique (a checked schema rule, C12);
-     defaults_valid             defaults of input fields are valid literals of the field's type (NOT checked by the engine
-                                when it builds a schema).
+     input_fields_unique        input object field names are unique (a checked schema rule, C12).
+   Nothing is assumed of the DEFAULTS of input fields: a default that is not a valid literal of the field's type is a
+   coercion error (since the repair recorded in known_findings.json; before it, the engine delivered its "undefined"
+   sentinel inside the object when the object came through a variable).
    Assumed of the document: `lit_vars_typed` / `arg_vars_typed`: a variable written at a position carries a value of
    that position's type.  For a variable that is directly the value of an argument this is what rule 5.8.5
    (all-variable-usages-are-allowed) establishes: C05_usage_rule_is_subtyping + C05_coerced_variables_are_typed; for
@@ -29,9 +30,6 @@ Hypothesis leaf_input : forall n ops v r, scalars sch n = Some ops -> s_input op
 Hypothesis leaf_literal : forall n ops a r, scalars sch n = Some ops -> s_literal ops a = Ok r -> is_undef r = false -> leaf n r = true.
 Hypothesis leaf_not_none : forall n, leaf n PNone = false.
 Hypothesis input_fields_unique : forall n fields, find_type sch n = Some (DInput fields) -> NoDup (map in_name fields).
-Hypothesis defaults_valid : forall n fields f d fuel dv,
-  find_type sch n = Some (DInput fields) -> In f fields -> in_default f = Some d ->
-  spec_literal sch fuel (in_type f) [] false d = Ok dv -> is_undef dv = false.
 
 (* a literal coerces to a value of the declared type, or to "invalid" *)
 Theorem C05_literal_result_is_typed fuel t vs l r :
@@ -49,7 +47,7 @@ Theorem C05_coerced_variables_are_typed fuel vds raw vals errs :
   forall x v, In (x, v) vals -> exists vd, In vd vds /\ v_name vd = x /\ has_type sch leaf v (v_type vd) = true.
 Proof.
   rewrite coerce_variables_refines_spec.
-  exact (variables_typed sch leaf leaf_input leaf_literal leaf_not_none input_fields_unique defaults_valid fuel vds raw vals errs).
+  exact (variables_typed sch leaf leaf_input leaf_literal leaf_not_none input_fields_unique fuel vds raw vals errs).
 Qed.
 
 (* rule 5.8.5 as the engine implements it is a sub-typing check *)
